@@ -225,6 +225,21 @@ prop("C03", "Comments are never silently dropped", "other",
      "The placement of comments by the list and block rewriters is not decided.",
      statement_clauses={"U10": "Every non-doc comment of the input ... reappears in the output with the same text", "U11": "If rustfmt cannot place such a comment it leaves the enclosing statement as written rather than losing it"})
 
+IDEM = r"idempot|again|twice|second pass|rewriting the result"
+prop("C02", "Formatting is idempotent", "other",
+     [{"unit": "U08", "only": IDEM}, {"unit": "U02", "only": IDEM}, {"unit": "U09", "only": IDEM}, {"unit": "U10", "only": IDEM}, {"unit": "U18", "only": IDEM},
+      {"unit": "U04", "only": r"^format_lines: trailing newline"}],
+     [{"clause": "newline-style conversion is a fixed point (Unix and Windows converters idempotent)", "status": "bounded", "by": "U08"},
+      {"clause": "the blank-line clamp is a fixed point: a second push with nothing new pushes nothing", "status": "bounded", "by": "U09"},
+      {"clause": "trailing-newline truncation leaves exactly one terminator (a second pass finds nothing to truncate)", "status": "bounded", "by": "U04"},
+      {"clause": "remove_trailing_white_spaces and trim_left_preserve_layout are idempotent", "status": "bounded", "by": "U10"},
+      {"clause": "literal re-spelling is idempotent (rewriting the rewritten literal changes nothing)", "status": "bounded", "by": "U18"},
+      {"clause": "file_lines normalisation is idempotent", "status": "bounded", "by": "U02"},
+      {"clause": "import normalisation / regrouping / sorting applied twice equals once", "status": "bounded", "by": "U13/U14 (when integrated)"},
+      {"clause": "whole-program idempotence: format(format(x)) == format(x) for every source (layout thresholds inside the rewriters agreeing with themselves on their own output)", "status": "not_decided", "by": "- (no contract on one function expresses it; it is a statement about the composition of all rewriters)"}],
+     "Whole-program idempotence is not decided by this technique. What is decided are the fixed-point clauses of the mechanisms the anchors name as being 'themselves fixed points', each as the postcondition f(f(x)) == f(x) on the real function, bounded-exhaustively.",
+     statement_clauses={"U08": "a second run rewrites no file", "U09": "a second run rewrites no file", "U10": "a second run rewrites no file", "U18": "a second run rewrites no file", "U02": "a second run rewrites no file", "U04": "a second run rewrites no file"})
+
 PROPS["C13"]["statement_clauses"]["U17"] = "except modules or files that are skipped, matched by `ignore`, marked @generated when generated files are excluded, or any child when skip_children is set or the input is standard input"
 PROPS["C20"]["statement_clauses"]["U25"] = "When rustfmt rewrites a file with --backup ..."
 
@@ -235,6 +250,8 @@ T_B = "bounded-exhaustive contract checking of the natively compiled real functi
 MANIFEST_TEXT = {
     "C01": {"text": "Only the leaves: modifier keyword tables proved complete with Kani (and re-checked on the real rustc_ast enums), extern ABI / visibility / literal re-spelling / macro metavariable substitution checked bounded-exhaustively against rustc_lexer. Token preservation by the rewriters (the bulk of C01) is NOT decided.",
             "note": "shim enums mirror rustc_ast variants (a missing variant would not compile); RewriteContext/Shape shims for the literal functions; one recorded known finding (placeholder collisions)", "technique": T_K + " + " + T_B},
+    "C02": {"text": "Whole-program idempotence is NOT decided. Decided, bounded-exhaustively, are the fixed-point postconditions f(f(x)) == f(x) of the mechanisms the anchors call fixed points: newline conversion, blank-line clamp, trailing-newline truncation, trailing-blank removal, literal re-spelling, range normalisation (imports when U13/U14 are integrated).",
+            "note": "each obligation is a clause of another unit re-used under C02 by an obligation filter; the composition of rewriters is unverified surroundings", "technique": T_B},
     "C03": {"text": "Bounded-exhaustive contract checks of the comment/code segmentation (CharClasses, *CodeSlices, LineClasses) against the real rustc_lexer and of the lost-comment safety net (changed_comment_content, CommentReducer, recover_comment_removed). Comment placement by the list/block rewriters and comment re-wrapping are NOT decided.",
             "note": "rustc_lexer is the reference; RewriteContext/ParseSess shims for recover_comment_removed; three recorded known findings", "technique": T_B},
     "C04": {"text": "Opt-out decision table proved (Kani, complete) and exercised end-to-end through the real format_project on recording shims; @generated search limit, skip-name scoping and the recorded skipped-line range enumerated. Per-node verbatim copying in the rewriters is NOT decided.",
